@@ -303,3 +303,11 @@ Example C04_ex_protocol_local :
   g_hist demo_local = [mkHop (OLPush 7) 1 (Some (3, RInt 1%Z)); mkHop OLPop 4 (Some (6, RBulk 7%Z));
                        mkHop OLPop 7 (Some (10, RNil))]%N.
 Proof. split; [exact demo_local_reachable|]. split; [exact (proj1 (proj2 demo_local_history))|exact (proj1 demo_local_history)]. Qed.
+
+(* (10) the barrier's answer must belong to the request: t_local uses the waiting request's OWN read index
+        (readIndexLoop matches the answer's request context with the id of the current round). Accepting the
+        answer of an earlier round of the same replica (seeded change C04-d2) yields a non-linearizable history *)
+Theorem C04_barrier_any_answer_refuted :
+  reachable_any_answer any_answer_state /\ ~ linearizable (g_hist any_answer_state).
+Proof. exact barrier_any_answer_refuted. Qed.
+Print Assumptions C04_barrier_any_answer_refuted.
